@@ -67,6 +67,7 @@ type Exec struct {
 	qctr     int
 	bufSrc   map[*Obj]*Obj
 	lazy     map[*Obj]Value
+	conns    map[*Term]*Obj
 	aliasOf  map[*Obj]*Obj
 }
 
@@ -608,6 +609,10 @@ func (x *Exec) load(st *State, p *PtrVal, t types.Type) Value {
 		// nil pointer dereference is guarded by the caller's obligation; produce a fresh value
 		return x.freshValue(st, t, "nilderef", false)
 	}
+	if p.InArr {
+		av := getPath(x.cellValue(st, p.Obj), p.Path).(*ArrVal)
+		return x.byteAt(av.Bytes, p.Idx)
+	}
 	if p.Obj.Kind == ObjRegion && p.ArrT != nil && p.Idx == nil {
 		rv := x.region(st, p.Obj)
 		av := &ArrVal{Typ: p.ArrT}
@@ -702,6 +707,17 @@ func (x *Exec) toElem(st *State, v Value, t types.Type) *Term {
 func (x *Exec) store(st *State, in ssa.Instruction, p *PtrVal, v Value) {
 	x.safety(st, "nil", in, Not(p.Nil), "pointer not nil at store")
 	if p.Obj == nil {
+		return
+	}
+	if p.InArr {
+		cur := x.cellValue(st, p.Obj)
+		av := getPath(cur, p.Path).(*ArrVal)
+		b := v.(*Term)
+		if b.S.IsBV() {
+			b = BV2Int(b)
+		}
+		nb := CatN(Take(av.Bytes, p.Idx), U8(b), Drop(av.Bytes, Add(p.Idx, IntLit(1))))
+		st.Heap[p.Obj] = setPath(cur, p.Path, &ArrVal{Typ: av.Typ, Bytes: nb})
 		return
 	}
 	if p.Obj.Kind == ObjRegion && p.ArrT != nil && p.Idx == nil {
@@ -1457,9 +1473,12 @@ func (x *Exec) indexAddr(st *State, fr *Frame, v *ssa.IndexAddr) Value {
 		if idx.Op == "int" {
 			cur := getPath(x.cellValue(st, b.Obj), b.Path).(*ArrVal)
 			if cur.Bytes != nil {
-				panic(unsupported("element address of byte array"))
+				return &PtrVal{Obj: b.Obj, Path: b.Path, Idx: idx, Nil: TFalse, InArr: true}
 			}
 			return &PtrVal{Obj: b.Obj, Path: append(append([]int(nil), b.Path...), int(idx.Num.Int64())), Nil: TFalse}
+		}
+		if cur := getPath(x.cellValue(st, b.Obj), b.Path).(*ArrVal); cur.Bytes != nil {
+			return &PtrVal{Obj: b.Obj, Path: b.Path, Idx: idx, Nil: TFalse, InArr: true}
 		}
 		panic(unsupported("symbolic index into array variable"))
 	}
